@@ -65,8 +65,6 @@ M("c04-ctor-late", "C04", C, "        self.allowed_error = allowed_error\n      
 # ------------------------------------------------------------------ C03
 M("c03-alpha", "C03", C, "        non_exceedance_p = 1 - alpha\n", "        non_exceedance_p = alpha\n", rules=["C03.proj"])
 M("c03-sincos", "C03", C, "z = x * np.cos(angles[i]) + y * np.sin(angles[i])", "z = x * np.sin(angles[i]) + y * np.cos(angles[i])", rules=["C03.proj"])
-M("c03-slice-shift", "C03", C, "np.sin(a[2:]) * r[1 : len(r) - 1] - np.sin(a[1 : len(a) - 1]) * r[2:]\n        ) / denominator", "np.sin(a[2:]) * r[: len(r) - 2] - np.sin(a[1 : len(a) - 1]) * r[2:]\n        ) / denominator", rules=["C03.cramer"])
-M("c03-sign", "C03", C, "            -np.cos(a[2:]) * r[1 : len(r) - 1] + np.cos(a[1 : len(a) - 1]) * r[2:]", "            np.cos(a[2:]) * r[1 : len(r) - 1] + np.cos(a[1 : len(a) - 1]) * r[2:]", rules=["C03.cramer"])
 M("c03-nowrap", "C03", C, "        r = np.array(np.concatenate((r, [r[0]]), axis=0))", "        r = np.array(np.concatenate((r, [r[-1]]), axis=0))", rules=["C03.wrap"])
 M("c03-n", "C03", C, "        if n is None:\n            n = int(100 / alpha)\n        self.n = n\n        self.deg_step = deg_step\n        self.sample = sample\n        super().__init__()\n\n    def _compute(self):\n        sample = self.sample\n        n = self.n\n        deg_step = self.deg_step\n        alpha = self.alpha\n",
   "        if n is None:\n            n = int(10 / alpha)\n        self.n = n\n        self.deg_step = deg_step\n        self.sample = sample\n        super().__init__()\n\n    def _compute(self):\n        sample = self.sample\n        n = self.n\n        deg_step = self.deg_step\n        alpha = self.alpha\n", rules=["C03.n"])
@@ -234,7 +232,6 @@ M("c20-hist-dist", "C20", PL, "                dist = dist_per_interval[interval
 # ------------------------------------------------------------------ rules that had no seeded break yet
 M("c01-result-other", "C01", C, "        self.sphere_points = sphere_points\n        self.coordinates = coordinates", "        self.sphere_points = sphere_points\n        self.coordinates = p", rules=["C01.result"])
 M("c03-ctor-step", "C03", C, "        self.n = n\n        self.deg_step = deg_step\n        self.sample = sample\n        super().__init__()\n\n    def _compute(self):\n        sample = self.sample\n        n = self.n\n        deg_step = self.deg_step\n        alpha = self.alpha\n", "        self.n = n\n        self.deg_step = deg_step * 2\n        self.sample = sample\n        super().__init__()\n\n    def _compute(self):\n        sample = self.sample\n        n = self.n\n        deg_step = self.deg_step\n        alpha = self.alpha\n", rules=["C03.ctor"])
-M("c03-step", "C03", C, "            0.5 * np.pi + 2 * rad_step, -1.5 * np.pi + rad_step, -1 * rad_step", "            0.5 * np.pi + 2 * rad_step, -1.5 * np.pi + rad_step, -2 * rad_step", rules=["C03.step"])
 M("c04-n", "C04", C, "        if n is None:\n            n = int(100 / alpha)\n        self.n = n\n        self.deg_step = deg_step\n        self.sample = sample\n        self.allowed_error = allowed_error\n        super().__init__()", "        if n is None:\n            n = int(10 / alpha)\n        self.n = n\n        self.deg_step = deg_step\n        self.sample = sample\n        self.allowed_error = allowed_error\n        super().__init__()", rules=["C04.n"])
 M("c04-ray-deg", "C04", C, "            unity_vector[0] = np.cos(theta / 180 * np.pi)\n            unity_vector[1] = np.sin(theta / 180 * np.pi)\n            max_distance = np.sqrt(x_marginal**2 + y_marginal**2)\n            rel_dist = 0.2\n            rel_step_size = 0.1\n            current_pe = 0  # pe = probability of exceedance.\n            nr_iterations = 0\n            while np.abs((current_pe - alpha)) / alpha > allowed_error:\n                abs_dist = rel_dist * max_distance\n                current_vector = unity_vector * abs_dist\n                both_greater", "            unity_vector[0] = np.cos(theta)\n            unity_vector[1] = np.sin(theta)\n            max_distance = np.sqrt(x_marginal**2 + y_marginal**2)\n            rel_dist = 0.2\n            rel_step_size = 0.1\n            current_pe = 0  # pe = probability of exceedance.\n            nr_iterations = 0\n            while np.abs((current_pe - alpha)) / alpha > allowed_error:\n                abs_dist = rel_dist * max_distance\n                current_vector = unity_vector * abs_dist\n                both_greater", rules=["C04.ray"])
 M("c05-generic-kw", "C05", D, "            args_with_default[idx] = arg\n", "            args_with_default[idx - 1] = arg\n", rules=["C05.generic"])
@@ -250,7 +247,6 @@ M("c14-constraints-dropped", "C14", FIT, "        constraints=constraints,\n    
 M("c14-step-1e-15", "C14", FIT, "        bounds=bounds,\n        # tol=1E-15\n", "        bounds=bounds,\n        options={\"eps\": 1e-15},\n", rules=["C14.constraints"], what="original defect D9 (finite-difference step)")
 M("c17-assert-two-crossings", "C17", U, "        x, y = intersection(x1, y1, [x2, x2], y2)\n", "        x, y = intersection(x1, y1, [x2, x2], y2)\n        assert len(x) <= 2\n        assert len(y) <= 2\n", rules=["C17.all"], what="original defect D15")
 M("repair-D10", "C15", U, "    order = list(nx.dfs_preorder_nodes(T, 0))\n", "    order = list(nx.dfs_preorder_nodes(T, 0))\n    if len(order) != len(points):\n        raise RuntimeError(\"points do not form one continuous line\")\n", expect="repaired", rules=["C15.perm"], what="length guard on the order")
-M("repair-D11", "C03", C, "        angles = np.arange(\n            0.5 * np.pi + 2 * rad_step, -1.5 * np.pi + rad_step, -1 * rad_step\n        )", "        n_angles = int(round(360 / deg_step)) + 1\n        angles = 0.5 * np.pi + 2 * rad_step - rad_step * np.arange(n_angles)", expect="repaired", rules=["C03.grid"], what="direction grid enumerated by integer count")
 
 # ------------------------------------------------------------------ rules added after the second seed round
 M("c10-ppi-by-value", ["C10", "C09"], I, "np.isin(positions, idc, assume_unique=True) for idc in interval_idc", "np.isin(data, data[idc]) for idc in interval_idc",
@@ -383,3 +379,12 @@ M("c13-log-cancellation", "C13", D, "p_star = np.log10(-np.log1p(-(p ** (1 / del
 M("c13-twin-log1p-temp", "C13", D, "        p_star = np.log10(-np.log1p(-(p ** (1 / delta))))", "        tail = p ** (1 / delta)\n        p_star = np.log10(-np.log1p(-tail))", expect="pass")
 M("c06-raw-negative-dim", "C06", J, "        dim = range(self.n_dim)[dim]  # a negative index counts from the last variable\n        if self.conditional_on[dim] is None:\n            # the distribution is not conditional -> it is the marginal\n            return self.distributions[dim].pdf(x)", "        if self.conditional_on[dim] is None:\n            # the distribution is not conditional -> it is the marginal\n            return self.distributions[dim].pdf(x)", rules=["C06.argorder"], what="original defect D36")
 M("c04-twin-or-components", "C04", C, "                coords_x.append(current_vector[0, 0])\n                coords_y.append(current_vector[1, 0])\n", "                coords_x.append(float(current_vector[0, 0]))\n                coords_y.append(float(current_vector[1, 0]))\n", expect="pass")
+
+# ------------------------------------------------------------------ C03 after the repair of D11
+M("c03-slice-shift", "C03", C, "        a1, a2, r1, r2 = a[:-1], a[1:], r[:-1], r[1:]", "        a1, a2, r1, r2 = a[:-1], a[1:], r[:-1], r[:-1]", rules=["C03.cramer"])
+M("c03-sign", "C03", C, "        y_cont = (-np.cos(a2) * r1 + np.cos(a1) * r2) / denominator", "        y_cont = (np.cos(a2) * r1 + np.cos(a1) * r2) / denominator", rules=["C03.cramer"])
+M("c03-step", "C03", C, "        angles = 0.5 * np.pi + rad_step - rad_step * np.arange(n_angles)", "        angles = 0.5 * np.pi + rad_step - 2 * rad_step * np.arange(n_angles)", rules=["C03.step"])
+M("c03-grid-arange", "C03", C, "        n_angles = int(round(360 / deg_step))\n        angles = 0.5 * np.pi + rad_step - rad_step * np.arange(n_angles)", "        angles = np.arange(0.5 * np.pi + rad_step, -1.5 * np.pi + rad_step, -1 * rad_step)", rules=["C03.grid"], what="original defect D11 (float-step arange on its boundary)")
+M("c03-grid-count", "C03", C, "        n_angles = int(round(360 / deg_step))", "        n_angles = int(round(180 / deg_step))", rules=["C03.grid"], what="half a circle")
+M("c03-pairs-skip-first", "C03", C, "        a1, a2, r1, r2 = a[:-1], a[1:], r[:-1], r[1:]", "        a1, a2, r1, r2 = a[1:-1], a[2:], r[1:-1], r[2:]", rules=["C03.wrap"], what="original defect D11 (first pair never intersected)")
+M("c03-twin-count-floor", "C03", C, "        n_angles = int(round(360 / deg_step))", "        n_angles = int(np.rint(360 / deg_step))", expect="pass")
